@@ -265,7 +265,20 @@ func (p *printer) node(n *SNode, indent, prefix, suffix string) {
 	}
 	switch n.Kind {
 	case 'l', 'r':
-		p.emit(withAnn(indent + prefix + n.Lit + suffix))
+		lit := n.Lit
+		if n.Kind == 'r' && strings.Contains(lit, "|") && (l.Pad != "" || l.Glue) {
+			// the bars of a choice spaced like every other token of this layout
+			names := strings.Split(lit, "|")
+			for i := range names {
+				names[i] = strings.TrimSpace(names[i])
+			}
+			sep := "|"
+			if !l.Glue {
+				sep = " " + l.Pad + "|" + l.Pad + " "
+			}
+			lit = strings.Join(names, sep)
+		}
+		p.emit(withAnn(indent + prefix + lit + suffix))
 	case 'o':
 		if len(n.Items) == 0 {
 			p.emit(withAnn(indent + prefix + "{" + l.Pad + "}" + suffix))
